@@ -5,7 +5,7 @@
 (* real Subscriptions table.                                               *)
 (***************************************************************************)
 EXTENDS Subs, Sequences, TLC, Json
-CONSTANTS MaxChanges, MaxT, MaxOps, MaxFails
+CONSTANTS MaxChanges, MaxT, MaxOps, MaxFails, MaxEvents
 
 P == INSTANCE SubsProp
 ClusterOfDef(p) == IF p <= 2 THEN 1 ELSE 2
@@ -15,15 +15,16 @@ VARIABLES ver,            \* true version of every path
           sub,            \* s -> [st, maxSeen, nextSeen, repAt, retryAt, fails, ctxNow, reads]
           rep,            \* reporter: [phase: "idle" | "pass", now]
           now, nchg, nfail,
+          nev,            \* Events::watermark(): number of the last event emitted
           pst, ok,        \* Layer P state and verdict
           nops, h
-vars == <<ver, tab, nextId, sub, rep, now, nchg, nfail, pst, ok, nops, h>>
-view == <<ver, tab, nextId, sub, rep, now, nchg, nfail, pst, ok>>
+vars == <<ver, tab, nextId, sub, rep, now, nchg, nfail, nev, pst, ok, nops, h>>
+view == <<ver, tab, nextId, sub, rep, now, nchg, nfail, nev, pst, ok>>
 
-NoSub == [st |-> "none", maxSeen |-> 0, nextSeen |-> 0, repAt |-> Never, retryAt |-> -1000, fails |-> 0, ctxNow |-> 0, reads |-> {}]
+NoSub == [st |-> "none", maxSeen |-> 0, nextSeen |-> 0, evSeen |-> 0, evNext |-> 0, evRead |-> FALSE, repAt |-> Never, retryAt |-> -1000, fails |-> 0, ctxNow |-> 0, reads |-> {}]
 Init == /\ ver = [p \in Paths |-> 0] /\ tab = {} /\ nextId = 1
-        /\ sub = [s \in Subs |-> NoSub] /\ rep = [phase |-> "idle", now |-> 0]
-        /\ now = 0 /\ nchg = 0 /\ nfail = 0 /\ pst = P!Fresh /\ ok = TRUE /\ nops = 0 /\ h = <<>>
+        /\ sub = [s \in Subs |-> NoSub] /\ rep = [phase |-> "idle", now |-> 0, ev |-> 0]
+        /\ now = 0 /\ nchg = 0 /\ nfail = 0 /\ nev = 0 /\ pst = P!Fresh /\ ok = TRUE /\ nops = 0 /\ h = <<>>
 
 Wm == nextId - 1
 InTable == {s \in Subs : sub[s].st = "table"}
@@ -35,14 +36,14 @@ Change(p) ==
   /\ ver' = [ver EXCEPT ![p] = @ + 1]
   /\ tab' = Record(tab, p, nextId) /\ nextId' = nextId + 1
   /\ pst' = P!AfterChange(p, pst) /\ Log([op |-> "Change", p |-> p])
-  /\ UNCHANGED <<sub, rep, now, nfail, ok>>
+  /\ UNCHANGED <<sub, rep, now, nfail, nev, ok>>
 
 Subscribe(s) ==
   /\ sub[s].st = "none"
-  /\ sub' = [sub EXCEPT ![s] = [NoSub EXCEPT !.st = "priming", !.maxSeen = Wm, !.nextSeen = Wm, !.ctxNow = now]]
+  /\ sub' = [sub EXCEPT ![s] = [NoSub EXCEPT !.st = "priming", !.maxSeen = Wm, !.nextSeen = Wm, !.evSeen = 0, !.evNext = nev, !.ctxNow = now]]
   /\ ok' = (ok /\ P!SubOk(s, now, pst)) /\ pst' = P!AfterSub(s, now, pst)
   /\ Log([op |-> "Subscribe", s |-> s])
-  /\ UNCHANGED <<ver, tab, nextId, rep, now, nchg, nfail>>
+  /\ UNCHANGED <<ver, tab, nextId, rep, now, nchg, nfail, nev>>
 
 \* one attribute of the in-flight report is visited (ReportContext::should_report_attr, then the read)
 Read(s, p) ==
@@ -52,19 +53,33 @@ Read(s, p) ==
      IF should THEN /\ ok' = (ok /\ P!DeliverOk(s, p, ver[p], pst)) /\ pst' = P!AfterDeliver(s, p, ver[p], pst)
                ELSE UNCHANGED <<ok, pst>>
   /\ Log([op |-> "Read", s |-> s, p |-> p, d |-> (sub[s].repAt = Never \/ ContainsSince(tab, p, sub[s].maxSeen))])
-  /\ UNCHANGED <<ver, tab, nextId, rep, now, nchg, nfail>>
+  /\ UNCHANGED <<ver, tab, nextId, rep, now, nchg, nfail, nev>>
+
+\* an event is emitted (Events::push); the reporter is notified
+EmitEvent ==
+  /\ nev < MaxEvents /\ nev' = nev + 1
+  /\ pst' = P!AfterEvent(pst) /\ Log([op |-> "Event"])
+  /\ UNCHANGED <<ver, tab, nextId, sub, rep, now, nchg, nfail, ok>>
+
+\* the in-flight report reads the events (max_seen_event_number, next_max_seen_event_number]
+ReadEv(s) ==
+  /\ sub[s].st \in {"priming", "reporting"} /\ ~sub[s].evRead
+  /\ sub' = [sub EXCEPT ![s].evRead = TRUE]
+  /\ ok' = (ok /\ P!DeliverEvOk(s, sub[s].evSeen, sub[s].evNext, pst)) /\ pst' = P!AfterDeliverEv(s, sub[s].evSeen, sub[s].evNext, pst)
+  /\ Log([op |-> "ReadEv", s |-> s])
+  /\ UNCHANGED <<ver, tab, nextId, rep, now, nchg, nfail, nev>>
 
 End(s, r) ==
-  /\ sub[s].st \in {"priming", "reporting"} /\ sub[s].reads = Paths
+  /\ sub[s].st \in {"priming", "reporting"} /\ sub[s].reads = Paths /\ sub[s].evRead
   /\ r = "fail" => (sub[s].st = "reporting" /\ nfail < MaxFails)
   /\ nfail' = IF r = "fail" THEN nfail + 1 ELSE nfail
   /\ sub' = [sub EXCEPT ![s] =
-       IF r = "ok" THEN [sub[s] EXCEPT !.st = "table", !.maxSeen = sub[s].nextSeen, !.repAt = sub[s].ctxNow, !.retryAt = -1000, !.fails = 0, !.reads = {}]
+       IF r = "ok" THEN [sub[s] EXCEPT !.st = "table", !.maxSeen = sub[s].nextSeen, !.evSeen = sub[s].evNext, !.repAt = sub[s].ctxNow, !.retryAt = -1000, !.fails = 0, !.reads = {}]
        ELSE IF r = "fail" THEN [sub[s] EXCEPT !.st = "table", !.fails = sub[s].fails + 1, !.retryAt = sub[s].ctxNow + Backoff(sub[s].fails + 1), !.reads = {}]
        ELSE NoSub]
   /\ ok' = (ok /\ P!EndOk(s, r, sub[s].ctxNow, pst)) /\ pst' = P!AfterEnd(s, r, sub[s].ctxNow, pst)
   /\ Log([op |-> "End", s |-> s, r |-> r])
-  /\ UNCHANGED <<ver, tab, nextId, rep, now, nchg>>
+  /\ UNCHANGED <<ver, tab, nextId, rep, now, nchg, nev>>
 
 \* reporter pass: sweep the expired ones, fix "now" for the pass
 PassStart ==
@@ -74,31 +89,32 @@ PassStart ==
      /\ sub' = [s \in Subs |-> IF s \in gone THEN NoSub ELSE sub[s]]
      /\ LET st1 == P!AfterGoneAll(gone, pst) IN
         /\ ok' = (ok /\ P!PassOk(now, st1)) /\ pst' = st1
-  /\ rep' = [phase |-> "pass", now |-> now]
+  /\ rep' = [phase |-> "pass", now |-> now, ev |-> nev]
   /\ Log([op |-> "PassStart"])
-  /\ UNCHANGED <<ver, tab, nextId, now, nchg, nfail>>
+  /\ UNCHANGED <<ver, tab, nextId, now, nchg, nfail, nev>>
 
 Begin(s) ==
   /\ rep.phase = "pass" /\ ~\E x \in Subs : sub[x].st = "reporting"
-  /\ sub[s].st = "table" /\ Reportable(sub[s], tab, rep.now)
-  /\ sub' = [sub EXCEPT ![s].st = "reporting", ![s].nextSeen = Wm, ![s].ctxNow = rep.now, ![s].reads = {}]
+  /\ sub[s].st = "table" /\ (Reportable(sub[s], tab, rep.now) \/ (AllowedAt(sub[s]) <= rep.now /\ sub[s].evSeen < rep.ev))
+  /\ sub' = [sub EXCEPT ![s].st = "reporting", ![s].nextSeen = Wm, ![s].evNext = rep.ev, ![s].evRead = FALSE, ![s].ctxNow = rep.now, ![s].reads = {}]
   /\ ok' = (ok /\ P!BeginOk(s, rep.now, pst)) /\ pst' = P!AfterBegin(s, rep.now, pst)
   /\ Log([op |-> "Begin", s |-> s])
-  /\ UNCHANGED <<ver, tab, nextId, rep, now, nchg, nfail>>
+  /\ UNCHANGED <<ver, tab, nextId, rep, now, nchg, nfail, nev>>
 
 PassEnd ==
   /\ rep.phase = "pass" /\ ~\E x \in Subs : sub[x].st = "reporting"
-  /\ ~\E s \in InTable : Reportable(sub[s], tab, rep.now)
+  /\ ~\E s \in InTable : Reportable(sub[s], tab, rep.now) \/ (AllowedAt(sub[s]) <= rep.now /\ sub[s].evSeen < rep.ev)
   /\ tab' = Purge(tab, {sub[s] : s \in InTable}, InFlight # {})
   /\ rep' = [rep EXCEPT !.phase = "idle"]
   /\ Log([op |-> "PassEnd"])
-  /\ UNCHANGED <<ver, nextId, sub, now, nchg, nfail, pst, ok>>
+  /\ UNCHANGED <<ver, nextId, sub, now, nchg, nfail, nev, pst, ok>>
 
 Tick == /\ now < MaxT /\ now' = now + 1 /\ Log([op |-> "Tick"])
-        /\ UNCHANGED <<ver, tab, nextId, sub, rep, nchg, nfail, pst, ok>>
+        /\ UNCHANGED <<ver, tab, nextId, sub, rep, nchg, nfail, nev, pst, ok>>
 
 Next == /\ nops < MaxOps
         /\ \/ \E p \in Paths : Change(p)
+           \/ EmitEvent \/ (\E s \in Subs : ReadEv(s))
            \/ \E s \in Subs : Subscribe(s) \/ Begin(s) \/ (\E p \in Paths : Read(s, p)) \/ (\E r \in {"ok", "fail", "drop"} : End(s, r))
            \/ PassStart \/ PassEnd \/ Tick
 Spec == Init /\ [][Next]_vars
@@ -106,7 +122,7 @@ Spec == Init /\ [][Next]_vars
 Refines == ok
 \* NoLostUpdate at quiescence: nothing in flight, reporter idle, and no subscription has a change still pending
 Quiescent == /\ rep.phase = "idle" /\ InFlight = {}
-             /\ \A s \in InTable : ~AnySince(tab, sub[s].maxSeen)
+             /\ \A s \in InTable : ~AnySince(tab, sub[s].maxSeen) /\ sub[s].evSeen = nev
 NoLostUpdate == Quiescent => P!QuietOk(pst)
 
 EmitAtEnd == nops = MaxOps => PrintT(<<"REPLAY", ToJson(h)>>)
